@@ -1,6 +1,7 @@
 (* C26 — Markdown escaping neutralises Markdown syntax.
    Only statements, `exact`, and Print Assumptions live here. *)
 From Verif Require Import Bytes Facts_md MarkdownM MarkdownSpec MarkdownInert_proofs Markdown_proofs.
+From Verif Require Import ShowTree MdShowM Facts_mdshow MdShowDispatchM MdShow_proofs.
 Open Scope N_scope.
 
 (* Full statement.  It speaks about a CommonMark converter, which is not
@@ -78,6 +79,65 @@ Proof.
   exact (conj fact_keys_ok (conj fact_plain_bytes_ok (conj fact_html_bytes_ok (conj fact_consts_ok fact_neigh_ok)))).
 Qed.
 
+(* Proved part 4 (type dispatch of the show functions; tables generated from
+   renderer.go by executing showInMarkdown / showInMarkdownCodeBlock for every
+   reflect.Kind and splitting on the dynamic type, Facts_mdshow).  A shown
+   value is abstract: any kind below md_n_kinds, ANY valuation of the type
+   atoms (which interfaces the dynamic type implements, which well known type
+   it is), any strings returned by its methods and by toString.
+
+   Code block contexts: whatever the value, renderer.Show either writes nothing
+   (cannot show) or writes the code block escaping of a string of the value:
+   the slot theorem C26_codeblock_stays_partial applies to every class, none is
+   written verbatim. *)
+Definition C26_show_codeblock_statement : Prop :=
+  forall (val : atom -> bool) (text : mdsrc -> bytes) (kind : N) (sp : bool),
+    kind < md_n_kinds ->
+    code_stays sp text (md_show_with val text kind (RCodeBlock sp)).
+
+Theorem C26_show_codeblock_stays_partial : C26_show_codeblock_statement.
+Proof. exact show_codeblock_stays. Qed.
+Print Assumptions C26_show_codeblock_stays_partial.
+
+(* Paragraph context: the classes written verbatim are exactly the markdown
+   typed values (native.Markdown, MarkdownStringer, MarkdownEnvStringer:
+   documented); HTML typed values go through markdownEscape with allowHTML
+   (no fault); every other value is written as the inert escaping esc_doc of
+   its string, or not at all. *)
+Definition C26_show_paragraph_statement : Prop :=
+  forall (val : atom -> bool) (text : mdsrc -> bytes) (kind : N),
+    kind < md_n_kinds ->
+    ((exists s, md_dispatch val kind RParagraph = MWrite s) <-> markdown_typed val = true)
+    /\ par_shown val text (md_show_with val text kind RParagraph).
+
+Theorem C26_show_paragraph_partial : C26_show_paragraph_statement.
+Proof. exact (fun val text kind H => conj (par_verbatim_exact val kind H) (show_paragraph val text kind H)). Qed.
+Print Assumptions C26_show_paragraph_partial.
+
+(* renderer.Show for the context assigned by the lexer.  The context is a
+   parameter: that the lexer assigns the code block contexts exactly where
+   CommonMark sees an indented code block is NOT proved (it is false, see
+   KNOWN_FINDINGS.txt; the template sweep evaluates it with goldmark). *)
+Definition C26_show_by_context_statement : Prop :=
+  forall (lexer_ctx : N) (v : mdvalue), v_kind v < md_n_kinds ->
+    (lexer_ctx = md_ctx_Markdown -> par_shown (md_val (v_kind v) (v_flags v)) (v_text v) (md_show lexer_ctx v))
+    /\ (lexer_ctx = md_ctx_TabCodeBlock -> code_stays false (v_text v) (md_show lexer_ctx v))
+    /\ (lexer_ctx = md_ctx_SpacesCodeBlock -> code_stays true (v_text v) (md_show lexer_ctx v)).
+
+Theorem C26_show_by_context_partial : C26_show_by_context_statement.
+Proof. exact show_by_context. Qed.
+Print Assumptions C26_show_by_context_partial.
+
+(* The obligations on the dispatch tables regenerated from renderer.go. *)
+Theorem C26_generated_dispatch_facts :
+  tbl_check gen_showInMarkdownCodeBlock_tab_tbl (chk_code false) = true
+  /\ tbl_check gen_showInMarkdownCodeBlock_spaces_tbl (chk_code true) = true
+  /\ tbl_check gen_showInMarkdown_tbl chk_par = true
+  /\ route_assoc gen_md_route md_ctx_Markdown = Some RParagraph
+  /\ route_assoc gen_md_route md_ctx_TabCodeBlock = Some (RCodeBlock false)
+  /\ route_assoc gen_md_route md_ctx_SpacesCodeBlock = Some (RCodeBlock true).
+Proof. exact (conj fact_code_tab_ok (conj fact_code_spaces_ok (conj fact_par_ok fact_routes_ok))). Qed.
+
 (* non-vacuity *)
 Example C26_example_paragraph :   (* " a*b\n\n\tc " *)
   markdownEscape [32; 97; 42; 98; 10; 10; 9; 99; 32] false
@@ -95,3 +155,16 @@ Proof. vm_compute. reflexivity. Qed.
 
 Example C26_example_unclosed_comment : markdownEscape [60; 33; 45; 45; 120] true = MErr 1.
 Proof. vm_compute. reflexivity. Qed.
+
+(* a value of type native.Markdown (kind String, flag w_Markdown) holding "a\nb":
+   verbatim in a paragraph, re-indented in a tab code block *)
+Example C26_example_show_markdown_typed :
+  md_show_flat md_ctx_Markdown 24 (2 ^ w_Markdown) [97; 10; 98] [97; 10; 98] [] [] [] [] [] [] [] = ROk [97; 10; 98]
+  /\ md_show_flat md_ctx_TabCodeBlock 24 (2 ^ w_Markdown) [97; 10; 98] [97; 10; 98] [] [] [] [] [] [] [] = ROk [97; 10; 9; 98].
+Proof. vm_compute. split; reflexivity. Qed.
+
+(* a plain string "*x*" and a value that cannot be shown (kind Slice, no flag) *)
+Example C26_example_show_plain :
+  md_show_flat md_ctx_Markdown 24 0 [42; 120; 42] [42; 120; 42] [] [] [] [] [] [] [] = ROk [92; 42; 120; 92; 42]
+  /\ md_show_flat md_ctx_SpacesCodeBlock 23 0 [] [] [] [] [] [] [] [] [] = RCannotShow.
+Proof. vm_compute. split; reflexivity. Qed.
